@@ -146,7 +146,7 @@ structure RlpInv (s : FSA V L) (root : V) (H : FSA V L) (marked : Dict V Bool) (
     (queue : List V) : Prop where
   wf : H.WF
   verts : ∀ v, v ∈ H.out.keys ↔ v ∈ s.out.keys
-  starts : H.starts = []
+  starts : H.starts = [root]
   sound : ∀ v l w, H.step v l = some w →
     s.step v l = some w ∧ ∃ d, dist.get? v = some d ∧ dist.get? w = some (d + 1)
   mark : ∀ v, marked.get? v = some true ↔ ∃ d, dist.get? v = some d
@@ -379,7 +379,7 @@ theorem removeLongPaths_unfold {s : FSA V L} (root : Option V) (ties : Bool)
       (∀ x, marked0.get? x = some true ↔ x = r) ∧ (∀ v l w, H0.step v l ≠ some w) := by
   simp only [removeLongPaths] at h
   obtain ⟨r, hr, h⟩ : ∃ r, (root = some r ∨ (root = none ∧ s.starts.head? = some r)) ∧
-      rlpLoop s ties (s.out.length + 2) ((FSA.empty ([] : List V) : FSA V L).addVertices s.vertices)
+      rlpLoop s ties (s.out.length + 2) ((FSA.empty [r] : FSA V L).addVertices s.vertices)
         (Dict.set (s.vertices.map fun v => (v, false)) r true) [(r, 0)] [r] = .ok (H, dist) := by
     cases root with
     | some r => exact ⟨r, Or.inl rfl, by simpa [bind, Except.bind, pure, Except.pure] using h⟩
@@ -389,14 +389,14 @@ theorem removeLongPaths_unfold {s : FSA V L} (root : Option V) (ties : Bool)
       | nil => simp [hst, bind, Except.bind] at h
       | cons r rest =>
         exact ⟨r, Or.inr ⟨rfl, by simp⟩, by simpa [hst, bind, Except.bind, pure, Except.pure] using h⟩
-  have hw0 : ((FSA.empty ([] : List V) : FSA V L).addVertices s.vertices).WF :=
-    wf_addVertices (wf_emptyFSA []) _
-  have habs0 := abs_addVertices (wf_emptyFSA ([] : List V) (L := L)) s.vertices
-  have hnoedge : ∀ v l w, ((FSA.empty ([] : List V) : FSA V L).addVertices s.vertices).step v l ≠ some w := by
+  have hw0 : ((FSA.empty [r] : FSA V L).addVertices s.vertices).WF :=
+    wf_addVertices (wf_emptyFSA [r]) _
+  have habs0 := abs_addVertices (wf_emptyFSA [r] (L := L)) s.vertices
+  have hnoedge : ∀ v l w, ((FSA.empty [r] : FSA V L).addVertices s.vertices).step v l ≠ some w := by
     intro v l w hst
-    have : ((FSA.empty ([] : List V) : FSA V L).addVertices s.vertices).abs.edges v l w := hst
+    have : ((FSA.empty [r] : FSA V L).addVertices s.vertices).abs.edges v l w := hst
     rw [habs0] at this
-    have : (FSA.empty ([] : List V) : FSA V L).step v l = some w := this
+    have : (FSA.empty [r] : FSA V L).step v l = some w := this
     simp [step_def, FSA.empty, fromGraphDict, hiddenVertices] at this
   have hmark0 : ∀ x, (Dict.set (s.vertices.map fun v => (v, false)) r true).get? x = some true ↔ x = r := by
     intro v
@@ -412,7 +412,7 @@ theorem removeLongPaths_unfold {s : FSA V L} (root : Option V) (ties : Bool)
   refine ⟨r, _, _, hr, h, ?_, hmark0, hnoedge⟩
   refine ⟨hw0, ?_, by rw [starts_addVertices]; rfl, ?_, ?_, ?_, by simp [get?_cons]⟩
   · intro v; rw [mem_keys_addVertices]
-    have : v ∉ (FSA.empty ([] : List V) : FSA V L).out.keys := by intro h; cases h
+    have : v ∉ (FSA.empty [r] : FSA V L).out.keys := by intro h; cases h
     simp [this, vertices]
   · intro v l w hst; exact absurd hst (hnoedge v l w)
   · intro v
@@ -430,12 +430,12 @@ same vertex set, with no start vertices, all of whose edges are edges of the ori
 leading from a breadth-first level to the next one; the root is at level 0. -/
 theorem removeLongPaths_sound {s : FSA V L} (hs : s.WF) (root : Option V) (ties : Bool)
     {H : FSA V L} {dist : Dict V Nat} (h : s.removeLongPaths root ties = .ok (H, dist)) :
-    H.WF ∧ H.starts = [] ∧ (∀ v, v ∈ H.vertices ↔ v ∈ s.vertices) ∧
-    (∃ r, (root = some r ∨ (root = none ∧ s.starts.head? = some r)) ∧ dist.get? r = some 0) ∧
+    H.WF ∧ (∀ v, v ∈ H.vertices ↔ v ∈ s.vertices) ∧
+    (∃ r, (root = some r ∨ (root = none ∧ s.starts.head? = some r)) ∧ H.starts = [r] ∧ dist.get? r = some 0) ∧
     ∀ v l w, H.step v l = some w →
       s.step v l = some w ∧ ∃ d, dist.get? v = some d ∧ dist.get? w = some (d + 1) := by
   obtain ⟨r, H0, marked0, hr, hloop, inv0, -, -⟩ := removeLongPaths_unfold root ties h
   obtain ⟨marked', inv⟩ := rlpLoop_sound hs r ties _ _ _ _ _ H dist inv0 hloop
-  exact ⟨inv.wf, inv.starts, inv.verts, ⟨r, hr, inv.root⟩, inv.sound⟩
+  exact ⟨inv.wf, inv.verts, ⟨r, hr, inv.starts, inv.root⟩, inv.sound⟩
 
 end GT.FSA
